@@ -10,13 +10,19 @@ RULE = ("files built by an independent Python BMP encoder (never by the library)
         "bmp.invert (flip once and twice); all three factories over the same lattice plus large dimensions, partial palettes, "
         "pixel arrays with clean padding; the two row-size formulas swept over widths -70..5000 per depth inside one case and at "
         "the 32-bit boundaries; distinct = distinct protocol lines")
-PROVED = ("C08_read_valid (every accepted byte string: Validate passes, width >= 0, |pixels| = pitch*|height| with pitch = 4*ceil(w*bits/32), "
-          "palette <= 2^bits), the pitch law for all widths and depths (smallest multiple of four holding w*bits bits), C08_invert "
-          "(rows reversed, height negated, involution on every accepted bitmap), C08_rt and C08_factory_rt as listed in "
-          "lean/Op2Proofs/Props/C08.lean; bridging lemmas: translated CalcPixelByteWidth/CalculatePitch = model formulas on the whole "
-          "int32 range, measured header layouts and default constants = model")
-PARTIAL = ("see notes/bmp.md for theorems stated as _partial; operator== of the C++ objects is structural equality of the model records "
-           "(checked by the eq= flag of bmp.create / bmp.invert)")
+PROVED = ("for ALL byte strings b: C08_read_valid (read b = ok f => Validate passes, width >= 0, |pixels| = pitchN*|height| with exactly |height| rows of "
+          "pitchN = 4*ceil(w*bits/32) bytes whose concatenation is the pixel array, palette <= 2^bits, bits in {1,4,8}); C08_pitch_law (pitchN is a "
+          "multiple of 4, holds w*bits bits, and no smaller multiple of 4 does - all w, bits) and C08_pitch_model (the size_t formula of the code = "
+          "pitchN for every non-negative int32 width and uint16 depth); C08_rt (write succeeds and reads back with equal width, signed height, depth, "
+          "palette extended entry-for-entry to 2^bits, every row = its meaningful bytes ++ zero padding); C08_factory_rt1/2/3 (all three factories, "
+          "every (bits,w,h) for which they return an object: write then read gives the SAME object; for the pixel-array factory under CleanPadding, "
+          "with a decide-checked witness that this hypothesis cannot be dropped); C08_invert (one flip = rows reversed, height negated, all else "
+          "unchanged; two flips = original).  Bridging: C08_gen_pitch (CalcPixelByteWidth/CalculatePitch as translated from the current source = model "
+          "formulas on the WHOLE int32 x uint16 range), C08_gen_layout (36 measured offsets/sizes/defaults/ValidBitCounts/signature/Black), "
+          "C08_enc_lengths")
+PARTIAL = ("nothing of the statement is left unproved for the model.  operator== of the C++ objects is structural equality of the model records "
+           "(checked by the eq= flag of bmp.create / bmp.invert on every case); the accepted-file theorems carry the harness allocation cap "
+           "(pixel section <= 1 GiB) inside `read`")
 TRUSTED = []
 ASSUMPTIONS = ["streams are MemoryReader / DynamicMemoryWriter (C12/C14 carry the statement to the other backends)",
                "allocations above the harness cap of 1 GiB are reported as ordinary errors"]
